@@ -20,7 +20,12 @@ for _f in sorted(os.listdir(_HDIR)):
     _m = re.match(r'^(c\d\d)\.py$', _f)
     if not _m:
         continue
-    _mod = importlib.import_module('tools.harness.' + _m.group(1))
+    try:
+        _mod = importlib.import_module('tools.harness.' + _m.group(1))
+    except Exception as _e:      # a harness under construction must not take the other properties' checks down
+        import sys as _sys
+        print('props: harness %s does not import (%s: %s); property skipped' % (_f, type(_e).__name__, _e), file=_sys.stderr)
+        continue
     _pid = _m.group(1).upper()
     _cfg = dict(getattr(_mod, 'CONFIG', {}))
     _cfg.setdefault('props', 'Props/%s.v' % _pid)
